@@ -4,6 +4,7 @@ CONSTANTS
     DebugAsserts = FALSE
     FailKinds = {"err", "death", "stop"}
     Arities = {0, 1, 2, 3, 4, 5, 6}
+    BpChoice = "all"
     Emit = "term"
 SPECIFICATION Spec
 INVARIANTS HappyPathOk TypeOK
